@@ -23,3 +23,4 @@ import Plonk.Props.WidgetTie
 #print axioms Plonk.Props.WidgetTie.prover_quotient_terms_are_the_source
 #print axioms Plonk.Props.WidgetTie.prover_linearization_terms_are_the_source
 #print axioms Plonk.Props.WidgetTie.verify_assembly_is_the_source
+#print axioms Plonk.Props.C03.transcript_labels_bind_same_named_values
